@@ -62,12 +62,14 @@ H1 == Ident("h1", FALSE, Fn("h1"))
 E4 == Elem(TagHtml("div"), <<Plain("on", AvExpr(ObjLit(<< <<"click", H1>> >>)))>>, <<>>)
 E5 == Elem(TagHtml("div"), <<Plain("id", AvStr(<<"a">>)), Plain("on", AvExpr(ObjLit(<< <<"click", H1>> >>)))>>, <<>>)
 E6 == Elem(TagHtml("div"), <<Dir("kebab", <<"show">>, "", <<>>, AvExpr(Ident("sv", FALSE, Bool(TRUE))))>>, <<>>)
+E7 == Elem(TagComp("Foo", TRUE, Opq("vFoo")), <<>>, <<ChExpr(Ident("cu", FALSE, FnR("fd", Arr(<<Num(1)>>))))>>)      \* needs the slot test helper (and isVNode)
+E8 == Elem(TagComp("Foo", TRUE, Opq("vFoo")), <<>>, <<ChExpr(Call("g1", Num(2)))>>)
 HelperCases ==
   {[case |-> "C15-h", prop |-> "C15", opts |-> [DefaultOpts EXCEPT !.pragma = op, !.transformOn = TRUE, !.mergeProps = mp],
     place |-> "head", style |-> "block", text |-> cm, named |-> IF cm = "" THEN "" ELSE "h", strict |-> TRUE,
     pragmas |-> <<"h", "custom", "hh", "F", "a.b.c", "a.b">>,
     items |-> (IF cm = "" THEN <<>> ELSE <<Cm(cm)>>) \o <<Item("s1", "module", e)>>] :
-     e \in {E4, E5, E6}, op \in {"", "hh"}, cm \in {"", "/* @jsx h */"}, mp \in BOOLEAN}
+     e \in {E4, E5, E6, E7, E8}, op \in {"", "hh"}, cm \in {"", "/* @jsx h */"}, mp \in BOOLEAN}
 
 CaseSeq ==
   LET raw == SetToSeq(Raw)
